@@ -664,8 +664,12 @@ class Unit:
             spec = FnSpec(key)
         spec.used = True
         nodes = it["nodes"]
+        pick_first = first_rx.startswith("first:")
+        first_rx = first_rx[6:] if pick_first else first_rx
         frx, lrx = re.compile(first_rx), re.compile(last_rx)
         firsts = [n for n in nodes if n["k"] == "stmt" and frx.match(src.text(*n["span"]))]
+        if pick_first and firsts:
+            firsts = sorted(firsts, key=lambda n: n["span"][0])[:1]
         lasts = [n for n in nodes if n["k"] == "stmt" and lrx.match(src.text(*n["span"]))]
         if len(firsts) != 1 or len(lasts) != 1 or firsts[0]["block"] != lasts[0]["block"]:
             raise Undecided(f"lost anchor: slice {key}: first matches {len(firsts)}, last matches {len(lasts)} statements")
